@@ -28,6 +28,7 @@ import (
 	"github.com/containers/nri-plugins/pkg/resmgr/cache"
 	libmem "github.com/containers/nri-plugins/pkg/resmgr/lib/memory"
 	policyapi "github.com/containers/nri-plugins/pkg/resmgr/policy"
+	"github.com/containers/nri-plugins/pkg/sysfs"
 	"github.com/containers/nri-plugins/pkg/utils"
 	"github.com/containers/nri-plugins/pkg/utils/cpuset"
 
@@ -764,9 +765,28 @@ func (w *World) Step(o Op, hidx, k int) (tr.M, error) {
 	return line, nil
 }
 
+// topo describes where every online CPU sits (from the real discovery of the world's sysfs tree).
+func (w *World) topo() []tr.M {
+	out := []tr.M{}
+	sys, err := sysfs.DiscoverSystemAt(filepath.Join(w.SysRoot, "sys"))
+	if err != nil {
+		return out
+	}
+	iso := sys.Isolated()
+	for _, id := range sys.CPUIDs() {
+		c := sys.CPU(id)
+		if !c.Online() {
+			continue
+		}
+		out = append(out, tr.M{"cpu": id, "pkg": c.PackageID(), "die": c.DieID(), "node": c.NodeID(), "core": c.CoreID(),
+			"isolated": iso.Contains(id)})
+	}
+	return out
+}
+
 // ResetLine is the first line of a history in the trace.
 func (w *World) ResetLine(hidx int) tr.M {
-	return tr.M{"ev": "reset", "h": hidx, "world": tr.M{"policy": w.Spec.Policy, "fixture": w.Spec.Fixture,
+	return tr.M{"ev": "reset", "h": hidx, "topo": w.topo(), "world": tr.M{"policy": w.Spec.Policy, "fixture": w.Spec.Fixture,
 		"machine": w.Spec.Machine, "config": w.Spec.Config, "name": w.Spec.Name},
 		"memnodes": memNodes(w.allocator()), "st": w.State()}
 }
